@@ -49,8 +49,9 @@ def cases(tier, seed, ctx=None):
     reqs = []
     for i in range(n):
         body = rng.choice(bodies) if rng.chance(1, 2) else rng.bytes(rng.range(0, 12))
-        if tier != "quick" and rng.chance(1, 30):
-            body = rng.bytes(rng.choice([16383, 16384, 16385, 65536, 70000]))
+        if (tier != "quick" and rng.chance(1, 30)) or (tier == "quick" and i < 4):
+            # bodies around the buffer sizes of QIODevice (16 KiB) and of the copier/relay code (64 KiB)
+            body = rng.bytes(rng.choice([16383, 16384, 16385, 65536, 70000]) if tier != "quick" else [16384, 16385, 65536, 65537][i])
         r = G.valid_request(rng, body_len=len(body))
         trailing = rng.choice([b"", b"X", b"GET / HTTP/1.1\r\n\r\n", b"\r\n", rng.bytes(3)])
         reqs.append((r, body, trailing))
